@@ -433,8 +433,8 @@ func wcWrittenOK(v ssa.Value, depth int) bool {
 		n := 0
 		for _, b := range g.Blocks {
 			r, ok := b.Instrs[len(b.Instrs)-1].(*ssa.Return)
-			if !ok {
-				continue
+			if !ok || b == g.Recover {
+				continue // the recover block of a function with a defer returns after a panic only
 			}
 			n++
 			rv := ssax.ReturnOperand(r, 0)
